@@ -47,6 +47,7 @@ def check(case, ctx):
         ctx.label("has-unreachable-pair")
     if not np.array_equal(W, W.T):
         ctx.label("directed")
+    ctx.target(sum(sig[s][t] >= 2 for s in range(n) for t in range(n) if s != t), "pairs-with-several-shortest-paths")
     if ties and unreach:
         ctx.mark_nontrivial({"kind": kind, "W": W})
 
